@@ -351,8 +351,8 @@ func (g *c15gen) join(ls []c15lexeme) string {
 // ------------------------------------------------------------------ untyped random trees
 
 var c15Names = []string{"a", "b", "c", "f", "g", "x1", "upper", "len", "json", "n_2", "foo"}
-var c15Strs = []string{"a", "k1", "x y", "", "and", "(", "a\"b", "it's", "`q`", "1"}
-var c15QNames = []string{"x", "A b", "select", "1", "UPPER", "a-b", ""}
+var c15Strs = []string{"a", "k1", "x y", "", "and", "(", "a\"b", "it's", "`q`", "1", "%", "50%", "%%", "%s[%d]", "a\\b"}
+var c15QNames = []string{"x", "A b", "select", "1", "UPPER", "a-b", "", "p100%", "%v"}
 
 func (g *c15gen) atom() *c15gx {
 	switch g.r.intn(9) {
